@@ -417,3 +417,7 @@ Example bm_from_octets_examples :
   bm_from_octets [0; 0] = Err 11 /\ bm_from_octets [0; 33; 1] = Err 11 /\ bm_from_octets [0; 2; 1] = Err 10 /\
   bm_from_octets [7] = Err 10 /\ bm_from_octets [0; 1; 0; 0; 1; 0] = Ok tt.
 Proof. vm_compute. auto. Qed.
+
+(* pins of layout constants that no other lemma unfolds *)
+Example layout_pins : bm_len_index = 1 /\ bm_block_size = 34 /\ bm_header = 2 /\ bm_data_len = 32%nat.
+Proof. repeat split. Qed.
